@@ -42,6 +42,12 @@ func ulPlain(kind string, l int, seed uint64) []byte {
 		return nasTestpacket.GetUlNasTransport_PduSessionReleaseRequest(uint8(1 + r.Intn(15)))
 	case "svc":
 		return nasTestpacket.GetServiceRequest(nasMessage.ServiceTypeData)
+	case "gsm-est": // bare 5GSM messages (EPD 0x2e): the statement ranges over plain 5GMM and 5GSM messages
+		return nasTestpacket.GetPduSessionEstablishmentRequest(uint8(1 + r.Intn(15)))
+	case "gsm-rel":
+		return nasTestpacket.GetPduSessionReleaseRequest(uint8(1 + r.Intn(15)))
+	case "gsm-mod":
+		return nasTestpacket.GetPduSessionModificationRequest(uint8(1 + r.Intn(15)))
 	}
 	return nasTestpacket.GetRegistrationComplete(nil)
 }
@@ -90,6 +96,51 @@ func runULHistory(hi int, h hmap) {
 		case "rekey":
 			ue.KnasEnc, ue.KnasInt = key16(str(op, "kenc")), key16(str(op, "kint"))
 			kenc, kint = ue.KnasEnc[:], ue.KnasInt[:]
+			continue
+		case "bad-direct":
+			// the protection entry point itself refuses: a message it cannot encode (neither a 5GMM nor a
+			// 5GSM part), or an algorithm identifier it does not implement. Nothing was sent: the counters
+			// stay, and the next message goes out with the COUNT this one would have had.
+			ulB, dlB := ue.ULCount.Get(), ue.DLCount.Get()
+			var err error
+			switch num(op, "which", 0) % 3 {
+			case 0:
+				m := nas.NewMessage()
+				m.SecurityHeader = nas.SecurityHeader{ProtocolDiscriminator: nasMessage.Epd5GSMobilityManagementMessage, SecurityHeaderType: uint8(num(op, "sht", 2))}
+				_, err = tglib.NASEncode(ue, m, true, false)
+			case 1:
+				m := nas.NewMessage()
+				cp := append([]byte{}, nasTestpacket.GetRegistrationComplete(nil)...)
+				m.PlainNasDecode(&cp)
+				m.SecurityHeader = nas.SecurityHeader{ProtocolDiscriminator: nasMessage.Epd5GSMobilityManagementMessage, SecurityHeaderType: 2}
+				saved := ue.CipheringAlg
+				ue.CipheringAlg = 5 // reserved identifier
+				_, err = tglib.NASEncode(ue, m, true, false)
+				ue.CipheringAlg = saved
+			default:
+				m := nas.NewMessage()
+				cp := append([]byte{}, nasTestpacket.GetRegistrationComplete(nil)...)
+				m.PlainNasDecode(&cp)
+				m.SecurityHeader = nas.SecurityHeader{ProtocolDiscriminator: nasMessage.Epd5GSMobilityManagementMessage, SecurityHeaderType: 1}
+				saved := ue.IntegrityAlg
+				ue.IntegrityAlg = 6 // reserved identifier
+				_, err = tglib.NASEncode(ue, m, true, false)
+				ue.IntegrityAlg = saved
+			}
+			if err == nil {
+				// accepted after all: then it was a send and consumed one COUNT
+				next = (next + 1) & 0xffffff
+				if ue.ULCount.Get() != next {
+					fail("ul.count-after", "uplink COUNT is %d after an accepted send, expected %d", ue.ULCount.Get(), next)
+					ue.ULCount.Set(uint16(next>>8), uint8(next))
+				}
+				continue
+			}
+			if ue.ULCount.Get() != ulB || ue.DLCount.Get() != dlB {
+				fail("ul.count-after-error", "a refused message (%v) moved the counters from UL %d / DL %d to UL %d / DL %d", err, ulB, dlB, ue.ULCount.Get(), ue.DLCount.Get())
+				ue.ULCount.Set(uint16(ulB>>8), uint8(ulB))
+				ue.DLCount.Set(uint16(dlB>>8), uint8(dlB))
+			}
 			continue
 		case "bad":
 			// a message the codec cannot take (unknown message type, truncated body) is refused and is
